@@ -11,6 +11,8 @@ import os
 import sys
 
 logging.disable(logging.CRITICAL)
+import warnings
+warnings.filterwarnings('ignore', category=RuntimeWarning)   # 'coroutine ... was never awaited' noise from abandoned scenario coroutines
 
 UNDER_ENGINE = False
 try:  # the replay / audit paths run without crosshair being active, but it is importable
